@@ -730,15 +730,14 @@ func specCompoundCNAME(c CompoundPacket) string {
 }
 
 // lemmaCompound (C11): Validate, CNAME, Marshal and Unmarshal agree with the executable grammar.
-func lemmaCompound(c CompoundPacket) (verr error, name string, cerr error, merr error, uerr error) {
+func lemmaCompound(c CompoundPacket) (verr error, name string, cerr error, merr error, uerr error, d CompoundPacket, out []byte) {
 	verr = c.Validate()
 	name, cerr = c.CNAME()
-	out, merr := c.Marshal()
+	out, merr = c.Marshal()
 	if merr == nil {
-		var d CompoundPacket
 		uerr = d.Unmarshal(out)
 	}
-	return verr, name, cerr, merr, uerr
+	return verr, name, cerr, merr, uerr, d, out
 }
 
 // lemmaDestSSRCStable (C10, second sentence): DestinationSSRC is the same for a packet built in memory and for the
